@@ -23,7 +23,9 @@ CLAIMED.update({
  "C01": ("bounded model checking of decode(encode(d)) at PROV-JSON container level with symbolic contents (all value kinds, name classes, namespace modes, 18 kinds x masks, repeated identifiers, bundles), z3 deciding strict equality on every path; each path witness is then serialised to real JSON text under all 8 dump options and read back on the unmodified build", "4/C01",
          "container level is for-all within bounds; the json text layer (C code) is crossed with one solver-chosen representative per path plus float/datetime catalogues; two known findings (namespace-URI/prefix ambiguity, bundle shadowing a document prefix)"),
  "C10": ("an independent PROV-JSON reader written from the specification is run symbolically on the emitted container (contents symbolic) and must recover the same strict content and accept the structure; on replay the real text under all dump options is read by the same reader", "4/C10",
-         "JSON part only so far (XML part pending); reader = oracles/provjson_reader.py, shares no code with prov"),
+         "JSON: for-all at container level within bounds + text on witnesses; XML: the writer's paths are exhausted symbolically against an etree recorder and each witness is written by real lxml and read by an independent xml.etree-based reader (structure rules, prov:ref, child order); readers share no code with prov"),
+ "C02": ("path-complete exploration of the real PROV-XML writer (serialize_bundle/_derive_record_label run symbolically against an etree recorder, so the solver picks contents reaching every content-dependent branch: empty text, 'prov:'-prefixed text, subtype values, time attributes ...) over the C01 document space x force_types; every path witness is serialised with real lxml, read back and compared strictly on the unmodified build", "4/C02",
+         "PATH_COMPLETE: one solver-chosen representative per writer path crosses lxml; reader paths are exercised on those witnesses only; five XML defects found were repaired (fix: commits); one known finding (bundle shadowing a document prefix)"),
  "C06": ("(i) SMT kernel: for every string of <=8 (quick) / <=16 (thorough) code points the literal printed by the real escaping code is accepted by a transducer of the PROV-N STRING_LITERAL grammar and denotes the source string - one z3 query per call site, all strings at once; (ii) path-complete exploration of get_provn() over the C01 document space, each path's text parsed by an independent recursive-descent PROV-N parser (W3C grammar) and compared strictly", "4/C06",
          "kernel: for-all within the length bound; expressions: one solver-chosen representative per path (text is pinned before parsing); floats/datetimes from catalogues; PROV-N-inexpressible records (identified/attributed specialization, alternate, membership, mention) excluded"),
  "C15": ("(i) SMT kernels: for every identifier / label / attribute value / attribute name / URI of <=N code points, the label and URL strings the real prov.dot code passes to pydot are single well-formed DOT IDs (Graphviz scanner rules for quoted strings; HTML-like labels whose markup skeleton is exactly the template's and whose entity-decoded data is exactly the source) - one z3 query per call site covering all strings; (ii) path-complete exploration of prov_to_dot over documents x 16 option combinations x directions, each witness rendered by real pydot and parsed by Graphviz (dot -Tdot_json) and checked for nodes/clusters/edge paths/annotations", "4/C15",
